@@ -9,6 +9,8 @@ Import ListNotations.
 Record ocase := {
   oc_h : nat; oc_w : nat; oc_origin : origin; oc_rmax : rmax_in; oc_order : nat; oc_odd : bool;
   oc_out : outv;
+  oc_history : list outv;                  (* out values of earlier calls with the same image and
+                                              parameters, without cache clean-up *)
   oc_sqrt : sqrt_tab;
   oc_geom : nat * nat * nat * nat * nat;   (* _dst.row, col, rmax, Qheight, Qwidth *)
   oc_cos : list (list Q);                  (* distr.cos(): [n][r] *)
@@ -30,8 +32,9 @@ Definition ocheck_parts (c : ocase) : list bool :=
   match precalc (oc_h c) (oc_w c) (oc_origin c) (oc_rmax c) (oc_order c) (oc_odd c) with
   | POk g =>
     let '(row, col, rmax, Qh, Qw) := oc_geom c in
-    let bs := get_image_bs None g (out_dims (oc_out c) g) in
-    let R := recon Qops (sqrtQ (oc_sqrt c)) None (oc_out c) g (fximg (oc_cos c)) in
+    let cache := cache_after_history g (oc_history c) in
+    let bs := fst (get_image_bs cache g (out_dims (oc_out c) g)) in
+    let R := recon Qops (sqrtQ (oc_sqrt c)) cache (oc_out c) g (fximg (oc_cos c)) in
     let scale := (1 + inject_Z (Z.of_nat (List.length (oc_cos c))) * Qmaxabs (oc_cos c))%Q in
     [Nat.eqb (g_row g) row && Nat.eqb (g_col g) col && Nat.eqb (g_rmax g) rmax
      && Nat.eqb (g_Qh g) Qh && Nat.eqb (g_Qw g) Qw
